@@ -1020,6 +1020,40 @@ pub fn witness_zoo_plan(r: &mut Rng, tys: &[T]) -> Plan {
     g.finish()
 }
 
+/// `comp witness (comp (pair (take j_1) (drop (pair (take j_2) (drop …)))) unit)`: a 1 → 1 program
+/// whose single witness has a product-of-words type of exactly `l` bits (pinned by the source types
+/// of jets), `l ≥ 1`
+pub fn witness_bits_plan(l: usize) -> Plan {
+    use Elements::*;
+    let parts: [(usize, Elements); 9] = [(512, Eq256), (256, FeIsZero), (128, Eq64), (64, Some64), (32, Some32), (16, Some16), (8, Some8), (2, Xor1), (1, Some1)];
+    let mut rest = l;
+    let mut js = vec![];
+    for (w, j) in parts {
+        while rest >= w {
+            js.push(j);
+            rest -= w;
+        }
+    }
+    let mut nodes = vec![PNode::Witness];
+    let mut push = |n: PNode| {
+        nodes.push(n);
+        nodes.len() - 1
+    };
+    // innermost first
+    let last = push(PNode::Jet(*js.last().unwrap()));
+    let mut acc = last;
+    for j in js[..js.len() - 1].iter().rev() {
+        let jn = push(PNode::Jet(*j));
+        let t = push(PNode::Take(jn));
+        let d = push(PNode::Drop(acc));
+        acc = push(PNode::Pair(t, d));
+    }
+    let u = push(PNode::Unit);
+    let c = push(PNode::Comp(acc, u));
+    push(PNode::Comp(0, c));
+    Plan { nodes }
+}
+
 /// program of exactly type `a → b` (source and target pinned)
 pub fn gen_plan_pinned(r: &mut Rng, cfg: GenCfg, a: &T, b: &T, depth: usize) -> Plan {
     let mut g = PlanGen::new(r, cfg);
